@@ -437,7 +437,7 @@ class C17(CheckBase):
     id = 'C17'
     title = 'NTv2 grid files read faithfully, interpolated only from the right nodes'
     quick_runs = 6000
-    thorough_runs = 150000
+    thorough_runs = 150000 + 4 * 128
     quick_budget_s = 60
     thorough_budget_s = 1200
     run_timeout = 60
@@ -466,10 +466,47 @@ class C17(CheckBase):
         import geodepy.ntv2reader as nr
         import geodepy.transform as tf
         self.nr, self.tf = nr, tf
+        self.sut_files = (nr.__file__, tf.__file__)
+        from detsim.sched import wrap_module_locks
+        wrap_module_locks([nr, tf])
         self.real_open = open
 
     # ---------------------------------------------------------------- generate
+    # race sweep: the first query of a freshly read grid object is stopped at each 1/24 (thorough 1/128) of its
+    # length (measured in a forked child), a second caller then queries the same grid object
+    RACE_POINTS_QUICK = 24
+    RACE_POINTS_THOROUGH = 128
+    N_RACE_SWEEP = 4 * RACE_POINTS_QUICK
+    N_RANDOM_THOROUGH = 150000
+
+    def _race_trace(self, rng, j, points):
+        combo = j % 4
+        frac = ((j // 4) % points + rng.random()) / points
+        spec = gen_spec(rng)
+        sgs = spec['subgrids']
+        subs = []
+        for t in range(2):
+            sg = rng.choice(sgs)
+            lat, lon = self._position(rng, sg, rng.choice(['interior', 'ring', 'node', 'corner']))
+            o = {'id': 1000 + t, 'kind': 'tf' if combo & 1 else 'q', 'lat': lat, 'lon': lon,
+                 'method': 'bicubic' if combo & 2 else 'bilinear', 'cls': 'race', 'rot': 'none'}
+            if o['kind'] == 'tf':
+                o.update(fwd=rng.random() < 0.5, default_args=False)
+            subs.append(o)
+        ops = [{'id': 999, 'kind': 'concurrent', 'subs': subs, 'seed': rng.getrandbits(32), 'mode': 'preempt',
+                'frac': round(frac, 5), 'diag': rng.random() < 0.3}]
+        for n in range(4):
+            sg = rng.choice(sgs)
+            lat, lon = self._position(rng, sg, rng.choice(['interior', 'ring', 'node']))
+            ops.append({'id': n, 'kind': 'q', 'lat': lat, 'lon': lon, 'method': rng.choice(['bicubic', 'bilinear']), 'cls': 'after-race',
+                        'rot': 'none'})
+        return {'property': 'C17', 'spec': spec, 'path': 'race.gsb', 'ops': ops, 'faults': [], 'sweep': True}
+
     def generate(self, rng, i, tier):
+        if i < self.N_RACE_SWEEP:
+            return self._race_trace(rng, i, self.RACE_POINTS_QUICK)
+        if tier == 'thorough' and i >= self.N_RANDOM_THOROUGH:
+            return self._race_trace(rng, i - self.N_RANDOM_THOROUGH, self.RACE_POINTS_THOROUGH)
         spec = gen_spec(rng)
         model = Model(spec)
         sgs = spec['subgrids']
@@ -502,6 +539,53 @@ class C17(CheckBase):
                 else:
                     faults.append({'kind': 'eio', 'op': rng.choice([-1] + [o['id'] for o in ops]), 'nth': rng.randrange(1, 70),
                                    'errno': rng.choice(['EIO', 'EIO', 'EINTR', 'ETIMEDOUT', 'EAGAIN'])})
+        if rng.random() < 0.15:
+            # boundary pair: a point a hair inside an extent line, then its mirror image a hair outside it, same
+            # call, same method (an answer remembered under a rounded key must not leak across the line)
+            sg = rng.choice(sgs)
+            b = _bbox(sg)
+            rr = rng.randrange(0, sg['nrow'] - 1) + self._frac(rng)
+            cc = rng.randrange(0, sg['ncol'] - 1) + self._frac(rng)
+            lat = (sg['s_lat'] + rr * sg['lat_inc']) / 3600
+            lon = -(sg['e_long'] + cc * sg['long_inc']) / 3600
+            d = rng.choice([1e-9, 2e-9, 4e-9, 3e-10, 2e-8])
+            side = rng.choice('SNEW')
+            pin, pout = (lat, lon), (lat, lon)
+            if side == 'S':
+                pin, pout = (b[0] / 3600 + d, lon), (b[0] / 3600 - d, lon)
+            elif side == 'N':
+                pin, pout = (b[1] / 3600 - d, lon), (b[1] / 3600 + d, lon)
+            elif side == 'E':
+                pin, pout = (lat, -b[2] / 3600 - d), (lat, -b[2] / 3600 + d)
+            else:
+                pin, pout = (lat, -b[3] / 3600 + d), (lat, -b[3] / 3600 - d)
+            method = rng.choice(['bicubic', 'bilinear'])
+            kind = rng.choice(['tf', 'tf', 'q'])
+            fwd = rng.random() < 0.5
+            order = [pin, pout] if rng.random() < 0.7 else [pout, pin]
+            at = rng.randrange(0, len(ops) + 1)
+            for n, (la, lo) in enumerate(order):
+                o = {'id': len(ops) + 100 + n, 'kind': kind, 'lat': la, 'lon': lo, 'method': method, 'cls': 'boundary-pair'}
+                if kind == 'tf':
+                    o.update(fwd=fwd, default_args=False)
+                else:
+                    o['rot'] = 'none'
+                ops.insert(at + n, o)
+        if not fault_run and rng.random() < 0.12:
+            # several callers use the grid object at the same time
+            T = rng.choice([2, 2, 3, 4])
+            subs = []
+            for t in range(T):
+                src = dict(rng.choice(ops))
+                if rng.random() < 0.5:
+                    sg = rng.choice(sgs)
+                    src['lat'], src['lon'] = self._position(rng, sg, rng.choice(['node', 'interior', 'ring', 'corner', 'edge']))
+                    src['cls'] = 'concurrent'
+                src.pop('g', None)
+                src['rot'] = 'none'
+                src['id'] = 1000 + t
+                subs.append(src)
+            ops.insert(rng.randrange(0, len(ops) + 1), {'id': 999, 'kind': 'concurrent', 'subs': subs, 'seed': rng.getrandbits(32)})
         path = rng.choice(['/data/grids/test.gsb', 'grid.gsb', './sub/../grid file.gsb', '/sim/NTv2_0.gsb'])
         tr = {'property': 'C17', 'spec': spec, 'path': path, 'ops': ops, 'faults': faults}
         if not fault_run and rng.random() < 0.3:
@@ -781,9 +865,107 @@ class C17(CheckBase):
                     if not isinstance(got, str) or got.replace('/', '') != lit:
                         V('metadata', 'subgrid.' + k, {'subgrid': s['name'], 'written': lit, 'read': repr(got)})
 
+    def is_sut_file(self, fn):
+        return fn in self.sut_files
+
+    def _call(self, op, grid):
+        if op['kind'] == 'tf':
+            if op.get('default_args') and op['method'] == 'bicubic' and op['fwd']:
+                return self.tf.ntv2_2d(grid, op['lat'], op['lon'])
+            return self.tf.ntv2_2d(grid, op['lat'], op['lon'], op['fwd'], op['method'])
+        return self.nr.interpolate_ntv2(grid, op['lat'], op['lon'], method=op['method'])
+
+    def _op_length(self, op, grid):
+        """line events of one call made alone, measured in a forked child (nothing is warmed up here)"""
+        import os
+        import sys
+        rd, wr = os.pipe()
+        pid = os.fork()
+        if pid == 0:
+            code = 0
+            try:
+                os.close(rd)
+                n = [0]
+                files = self.sut_files
+
+                def g(frame, event, arg):
+                    return l if frame.f_code.co_filename in files else None
+
+                def l(frame, event, arg):
+                    if event == 'line':
+                        n[0] += 1
+                    return l
+                sys.settrace(g)
+                try:
+                    self._call(op, grid)
+                except Exception:
+                    pass
+                sys.settrace(None)
+                os.write(wr, b'%d' % n[0])
+            except BaseException:
+                code = 1
+            os._exit(code)
+        os.close(wr)
+        data = b''
+        while True:
+            chunk = os.read(rd, 64)
+            if not chunk:
+                break
+            data += chunk
+        os.close(rd)
+        os.waitpid(pid, 0)
+        try:
+            return int(data)
+        except ValueError:
+            return 0
+
+    def _concurrent(self, op, grid, model, fs, path, apath, data, layout, spec, arm, V, bump, log, sigset, topo, fclasses):
+        """2-4 callers query the same grid object at the same time (baton threads, seeded scheduler, pre-emption
+        at every line of ntv2reader.py / transform.py); each answer is judged like a lone caller's."""
+        import random
+        from detsim.sched import Sched, draw_decider, Replay, SimCancelled, StepBudgetExceeded
+        subs = op['subs']
+        T = len(subs)
+        r = random.Random(op['seed'])
+        if op.get('mode') == 'preempt':
+            L = self._op_length(subs[0], grid)
+            pnt = 1 + int(op['frac'] * max(L, 1))
+            decider = Replay([[0, pnt, 1]] + ([[1, pnt, 0]] if op.get('diag') else []))
+            bump('race_sweep_runs')
+        else:
+            decider = draw_decider(r, T, horizon=1500)
+        sched = Sched(T, decider, log, self.is_sut_file, max_steps=2000000)
+        out = [None] * T
+
+        def body(t):
+            def run(tid):
+                sched.begin_op(tid, t)
+                try:
+                    out[t] = (self._call(subs[t], grid), 'ok')
+                except (SimCancelled, StepBudgetExceeded):
+                    raise
+                except ValueError as e:
+                    out[t] = (e, 'ValueError' if subs[t]['kind'] == 'tf' else 'raised')
+                except Exception as e:
+                    out[t] = (e, 'raised')
+                finally:
+                    sched.end_op(tid)
+            return run
+        sched.run([body(t) for t in range(T)])
+        bump('concurrent_batches')
+        bump('context_switches', sched.nswitch)
+        judged = 0
+        for t, sub in enumerate(subs):
+            pre = out[t] if out[t] is not None else (RuntimeError('no result'), 'raised')
+            judged += self._do_op(sub, grid, model, fs, path, apath, data, layout, spec, False, False, arm,
+                                  lambda o, site, d: V(o, 'concurrent/' + site, d), bump, log, sigset, topo, fclasses, pre=pre)
+        return judged
+
     def _do_op(self, op, grid, model, fs, path, apath, data, layout, spec, fault_run, torn, arm, V, bump, log,
-               sigset, topo, fclasses):
+               sigset, topo, fclasses, pre=None):
         nr, tf = self.nr, self.tf
+        if op['kind'] == 'concurrent':
+            return self._concurrent(op, grid, model, fs, path, apath, data, layout, spec, arm, V, bump, log, sigset, topo, fclasses)
         lat, lon, method = op['lat'], op['lon'], op['method']
         loc = model.locate(lat, lon)
         pcls = model.posclass(loc)
@@ -806,16 +988,19 @@ class C17(CheckBase):
                 bump('probe:stencil_would_leave_grid')
         # ------------------------------------------------------------------ tf
         if op['kind'] == 'tf':
-            try:
-                if op.get('default_args') and method == 'bicubic' and op['fwd']:
-                    res = tf.ntv2_2d(grid, lat, lon)
-                else:
-                    res = tf.ntv2_2d(grid, lat, lon, op['fwd'], method)
-                status = 'ok'
-            except ValueError as e:
-                res, status = e, 'ValueError'
-            except Exception as e:
-                res, status = e, 'raised'
+            if pre is not None:
+                res, status = pre
+            else:
+                try:
+                    if op.get('default_args') and method == 'bicubic' and op['fwd']:
+                        res = tf.ntv2_2d(grid, lat, lon)
+                    else:
+                        res = tf.ntv2_2d(grid, lat, lon, op['fwd'], method)
+                    status = 'ok'
+                except ValueError as e:
+                    res, status = e, 'ValueError'
+                except Exception as e:
+                    res, status = e, 'raised'
             fs.eio_plan = {}
             log.add('tf', op['id'], status, repr(res) if status == 'ok' else type(res).__name__)
             if fault_run and (status == 'raised' or (status != 'ok' and loc is not None)):
@@ -844,14 +1029,17 @@ class C17(CheckBase):
                        'loc': self._locinfo(loc, spec)})
             return 1
         # ------------------------------------------------------------------ query
-        try:
-            res = nr.interpolate_ntv2(grid, lat, lon, method=method)
-            status = 'ok'
-        except Exception as e:
-            res, status = e, 'raised'
+        if pre is not None:
+            res, status = pre
+        else:
+            try:
+                res = nr.interpolate_ntv2(grid, lat, lon, method=method)
+                status = 'ok'
+            except Exception as e:
+                res, status = e, 'raised'
         fs.eio_plan = {}
         log.add('q', op['id'], status, repr(res) if status == 'ok' else type(res).__name__)
-        reads = fs.reads_of(apath, mark)
+        reads = fs.reads_of(apath, mark) if pre is None else []     # concurrent callers: the I/O history is interleaved
         if fault_run and status != 'ok':
             bump('fault_run_op_raised')
             return 0
